@@ -13,6 +13,7 @@ import (
 
 	"github.com/filecoin-project/go-f3/certexchange"
 	"github.com/filecoin-project/go-f3/certs"
+	"github.com/filecoin-project/go-f3/certstore"
 	"github.com/filecoin-project/go-f3/chainexchange"
 	"github.com/filecoin-project/go-f3/gpbft"
 	"github.com/filecoin-project/go-f3/internal/encoding"
@@ -357,7 +358,7 @@ func runC14(o *out, r *rng, thorough bool, rp string) {
 
 	// ---------- (C) codecs of every wire / storage type ----------
 	runCodecs(o, r, thorough)
-	o.finish("From F3 Require Import Payload Cbor EncRun.")
+	o.finish("From F3 Require Import Payload Cbor EncRun Codec CidModel SchemasGen CodecRun.")
 }
 
 type cborT interface {
@@ -422,6 +423,8 @@ func runCodecs(o *out, r *rng, thorough bool) {
 		codec{"PowerTableDiff", func() any { return &certs.PowerTableDiff{} }, diffs},
 		codec{"certexchange.Request", func() any { return &certexchange.Request{} }, []any{&certexchange.Request{FirstInstance: 7, Limit: certexchange.NoLimit, IncludePowerTable: true}, &certexchange.Request{}}},
 		codec{"certexchange.ResponseHeader", func() any { return &certexchange.ResponseHeader{} }, []any{&certexchange.ResponseHeader{PendingInstance: 9, PowerTable: pe}}},
+		codec{"certstore.SnapshotHeader", func() any { return &certstore.SnapshotHeader{} }, []any{&certstore.SnapshotHeader{Version: 1, FirstInstance: 3, LatestInstance: 9, InitialPowerTable: pe}, &certstore.SnapshotHeader{}}},
+		codec{"PowerEntry", func() any { return &gpbft.PowerEntry{} }, []any{&pe[0], &pe[len(pe)-1]}},
 		codec{"chainexchange.Message", func() any { return &chainexchange.Message{} }, []any{&chainexchange.Message{Instance: 3, Chain: e.chains[0], Timestamp: 1234}, &chainexchange.Message{Instance: 3, Chain: long, Timestamp: 1}}},
 	)
 	type marsh interface {
@@ -438,6 +441,7 @@ func runCodecs(o *out, r *rng, thorough bool) {
 		}
 		return b.Bytes(), nil
 	}
+	lastRemaining := 0
 	dec := func(v any, data []byte) (err error) {
 		defer func() {
 			if p := recover(); p != nil {
@@ -445,15 +449,19 @@ func runCodecs(o *out, r *rng, thorough bool) {
 			}
 		}()
 		m := reflect.ValueOf(v).MethodByName("UnmarshalCBOR")
-		res := m.Call([]reflect.Value{reflect.ValueOf(bytes.NewReader(data))})
+		rd := bytes.NewReader(data)
+		res := m.Call([]reflect.Value{reflect.ValueOf(rd)})
+		lastRemaining = rd.Len()
 		if !res[0].IsNil() {
 			return res[0].Interface().(error)
 		}
 		return nil
 	}
 	muts := 30
+	modelMuts := 14
 	if thorough {
 		muts = 600
+		modelMuts = 120
 	}
 	for _, c := range cs {
 		for vi, v := range c.values {
@@ -461,6 +469,10 @@ func runCodecs(o *out, r *rng, thorough bool) {
 			if err != nil {
 				o.violate("every wire and storage value encodes", "c14-encode-error", map[string]any{"type": c.name, "value": vi}, err.Error())
 				continue
+			}
+			modelEncodeCase(o, c.name, v, b1)
+			if vi == 0 {
+				limitMonitor(o, c.name, v, c.fresh, dec, enc)
 			}
 			b1b, _ := enc(v)
 			if !bytes.Equal(b1, b1b) {
@@ -477,10 +489,98 @@ func runCodecs(o *out, r *rng, thorough bool) {
 			}
 			o.count("codec-roundtrip", c.name+fmt.Sprint(vi), true)
 			// hostile inputs
+			heads := headPositions(b1)
+			// systematic sweep over the item heads of the first value of every type: another major type with the same
+			// argument, and an argument one off, at EVERY head (model and implementation must agree on each)
+			if vi == 0 && len(b1) <= modelMaxBytes {
+				hs := heads
+				if len(hs) > 48 {
+					hs = hs[:48]
+				}
+				for _, p := range hs {
+					for _, alt := range []int{0, 3, 4, -1, -2} {
+						d := append([]byte{}, b1...)
+						kind := "sweep-major"
+						if alt >= 0 {
+							if int(d[p]>>5) == alt {
+								continue
+							}
+							d[p] = d[p]&0x1f | byte(alt)<<5
+						} else {
+							kind = "sweep-length"
+							q := p
+							if low := d[p] & 31; low >= 24 && low <= 27 {
+								q = p + 1<<(low-24)
+							} else if low == 0 && alt == -2 || low == 23 && alt == -1 {
+								continue
+							}
+							if alt == -1 {
+								d[q]++
+							} else {
+								d[q]--
+							}
+						}
+						hx := c.fresh()
+						err := dec(hx, d)
+						if err != nil && strings.HasPrefix(err.Error(), "PANIC") {
+							o.violate("decoding arbitrary, truncated, oversized or over-expanding input returns an error without panicking", "c14-decode-panic", map[string]any{"type": c.name, "mutation": kind, "input": fmt.Sprintf("%x", d)}, err.Error())
+							continue
+						}
+						var re []byte
+						if err == nil {
+							re, _ = enc(hx)
+						}
+						modelDecodeCase(o, c.name, kind, d, err, lastRemaining, re)
+					}
+				}
+			}
 			for k := 0; k < muts; k++ {
 				d := append([]byte{}, b1...)
 				kind := ""
-				switch r.intn(5) {
+				switch r.intn(11) {
+				case 8: // another major type on an item head, same argument
+					p := heads[r.intn(len(heads))]
+					d[p] = d[p]&0x1f | byte(r.intn(8))<<5
+					kind = "head-major-swap"
+				case 9: // an item head announcing one element / byte more or less
+					p := heads[r.intn(len(heads))]
+					if low := d[p] & 31; low < 23 && low > 0 {
+						if r.bool() {
+							d[p]++
+						} else {
+							d[p]--
+						}
+					} else if low >= 24 && low <= 27 {
+						last := p + 1<<(low-24)
+						if r.bool() {
+							d[last]++
+						} else {
+							d[last]--
+						}
+					}
+					kind = "head-length-off-by-one"
+				case 10: // a null in place of an item head
+					d[heads[r.intn(len(heads))]] = 0xf6
+					kind = "head-null"
+				case 5: // a null where a value is expected
+					d[r.intn(len(d))] = 0xf6
+					kind = "null-byte"
+				case 6: // a non-minimal head in place of a one-byte head
+					p := r.intn(len(d))
+					if d[p]&31 < 24 {
+						d = append(append(append([]byte{}, d[:p]...), d[p]&0xe0|24, d[p]&31), d[p+1:]...)
+					}
+					kind = "non-minimal-head"
+				case 7: // a length one above / below what the content holds
+					p := r.intn(len(d))
+					if d[p]&31 < 23 && d[p]&31 > 0 {
+						if r.bool() {
+							d[p]++
+						} else {
+							d[p]--
+						}
+					}
+					kind = "length-off-by-one"
 				case 0:
 					d = d[:r.intn(len(d))]
 					kind = "truncated"
@@ -507,8 +607,16 @@ func runCodecs(o *out, r *rng, thorough bool) {
 				}
 				var m0, m1 runtime.MemStats
 				runtime.ReadMemStats(&m0)
-				err := dec(c.fresh(), d)
+				hx := c.fresh()
+				err := dec(hx, d)
 				runtime.ReadMemStats(&m1)
+				if k < modelMuts && (err == nil || !strings.HasPrefix(err.Error(), "PANIC")) {
+					var re []byte
+					if err == nil {
+						re, _ = enc(hx)
+					}
+					modelDecodeCase(o, c.name, kind, d, err, lastRemaining, re)
+				}
 				if err != nil && strings.HasPrefix(err.Error(), "PANIC") {
 					o.violate("decoding arbitrary, truncated, oversized or over-expanding input returns an error without panicking", "c14-decode-panic", map[string]any{"type": c.name, "mutation": kind}, err.Error())
 				}
